@@ -296,6 +296,20 @@ CREATE OR REPLACE MACRO vtl_tp_shift(p vtl_time_period, n INTEGER) AS (
         WHEN 'A' THEN
             vtl_period_to_string({'year': p.year + n,
                 'period_indicator': 'A', 'period_number': 1}::vtl_time_period)
+        -- Weeks and days do not have a fixed number of periods per year (53-week ISO years,
+        -- leap years): shift on the calendar and read the period back from the date.
+        WHEN 'W' THEN
+            vtl_period_to_string({
+                'year': CAST(isoyear(vtl_tp_start_date(p) + INTERVAL (7 * n) DAY) AS INTEGER),
+                'period_indicator': 'W',
+                'period_number': CAST(weekofyear(vtl_tp_start_date(p) + INTERVAL (7 * n) DAY) AS INTEGER)
+            }::vtl_time_period)
+        WHEN 'D' THEN
+            vtl_period_to_string({
+                'year': CAST(year(vtl_tp_start_date(p) + INTERVAL (n) DAY) AS INTEGER),
+                'period_indicator': 'D',
+                'period_number': CAST(dayofyear(vtl_tp_start_date(p) + INTERVAL (n) DAY) AS INTEGER)
+            }::vtl_time_period)
         ELSE
             vtl_period_to_string({
                 'year': p.year + CASE
